@@ -160,3 +160,31 @@ Theorem fdselect_read_total :
     end.
 Proof. exact fdselect_read_total_gen. Qed.
 Print Assumptions fdselect_read_total.
+
+(* ---------- DICT reals ---------- *)
+From C13 Require Import Proofs_real.
+Local Open Scope Z_scope.
+
+(* For every sign, every non-empty digit string d1..dm (any m, in particular
+   the 1..9 significant digits encodeFloat extracts) and every position l of
+   the decimal point, the nibble string encodeFloat lays out is made of bytes,
+   is consumed exactly by decodeFloat's nibble reader (terminator and padding
+   are in place: what follows is left untouched), is accepted by the decimal
+   grammar of strconv.ParseFloat, carries the sign, and denotes exactly
+   D * 10^(l-m) = 0.d1...dm * 10^l  (dec_equiv m1 e1 m2 e2 says
+   m1*10^e1 = m2*10^e2, cross-multiplied to stay in the integers). *)
+Theorem dict_real_value :
+  forall (neg : bool) (ds : list N) (l : Z) (rest : list N),
+    Forall (fun d => (d < 10)%N) ds -> ds <> [] ->
+    Forall (fun b => (b < 256)%N) (M_real_layout neg ds l) /\
+    exists cs d,
+      M_real_chars (M_real_layout neg ds l ++ rest) [] = Ok (cs, rest) /\
+      S_real_parse cs = Some d /\
+      d_neg d = neg /\
+      dec_equiv (d_mant d) (d_exp d - d_nfrac d) (digits_value ds) (l - Z.of_nat (length ds)).
+Proof.
+  intros neg ds l rest Hd Hne. split.
+  - apply real_layout_bytes_ok. exact Hd.
+  - exact (real_layout_value neg ds l rest Hd Hne).
+Qed.
+Print Assumptions dict_real_value.
